@@ -1051,6 +1051,21 @@ func errSummaryOf(fn *ssa.Function) errSummary {
 // (return values, with parameters mapped back to the call's arguments).
 func fieldSources(v ssa.Value, maxDepth int) map[string]bool {
 	out := map[string]bool{}
+	backSlice(v, maxDepth, func(x ssa.Value) bool {
+		if sn, f, _, ok := fieldOf(x); ok {
+			out[sn+"."+f] = true
+		}
+		return true
+	})
+	return out
+}
+
+// backSlice walks the backward slice of v (same edges as fieldSources: phis,
+// composite-literal stores, loads, arithmetic, conversions, call arguments,
+// and into statically resolved module callees with parameters bound to the
+// call's arguments). visit is called once per value; returning false prunes
+// the walk below that value.
+func backSlice(v ssa.Value, maxDepth int, visit func(ssa.Value) bool) {
 	seen := map[ssa.Value]bool{}
 	var rec func(v ssa.Value, d int, bind map[*ssa.Parameter]ssa.Value)
 	rec = func(v ssa.Value, d int, bind map[*ssa.Parameter]ssa.Value) {
@@ -1058,9 +1073,40 @@ func fieldSources(v ssa.Value, maxDepth int) map[string]bool {
 			return
 		}
 		seen[v] = true
-		if sn, f, base, ok := fieldOf(v); ok {
-			out[sn+"."+f] = true
-			rec(base, d+1, bind)
+		if !visit(v) {
+			return
+		}
+		if _, _, base, ok := fieldOf(v); ok {
+			// follow the access path (x.a.b[i].c) but not the provenance of the
+			// base pointer itself: where the struct came from says nothing about
+			// which of its fields this value reads.
+			for base != nil {
+				switch b := base.(type) {
+				case *ssa.UnOp:
+					base = b.X
+					continue
+				case *ssa.IndexAddr:
+					base = b.X
+					continue
+				case *ssa.FieldAddr, *ssa.Field:
+					if !seen[base] {
+						seen[base] = true
+						visit(base)
+					}
+					_, _, nb, _ := fieldOf(base)
+					base = nb
+					continue
+				case *ssa.Parameter:
+					if bind != nil {
+						if a, ok := bind[b]; ok {
+							base = a
+							bind = nil
+							continue
+						}
+					}
+				}
+				break
+			}
 			return
 		}
 		switch x := v.(type) {
@@ -1147,5 +1193,4 @@ func fieldSources(v ssa.Value, maxDepth int) map[string]bool {
 		}
 	}
 	rec(v, 0, nil)
-	return out
 }
